@@ -179,6 +179,19 @@ func RunActor(f func()) {
 	}
 }
 
+var registry = map[string][2]any{}
+
+// Record is called by instrumented registration functions during a native replay (the replay driver inserts the call at
+// the top of p2p.RegisterHandler); under the engine the registration stub records the same pair.
+func Record(kind, key string, a, b any) { registry[kind+"/"+key] = [2]any{a, b} }
+
+// Registered returns what was registered under (kind, key): for "p2p.RegisterHandler" and a protocol id, the request
+// factory (func() proto.Message) and the handler (p2p.HandlerFunc). Both nil if nothing was registered.
+func Registered(kind, key string) (any, any) {
+	r := registry[kind+"/"+key]
+	return r[0], r[1]
+}
+
 // Symbolic reports whether the harness runs under the symbolic engine (intrinsic returns true).
 func Symbolic() bool { return false }
 
